@@ -300,7 +300,7 @@ def gen_race(rng):
 def gen_program(rng, focus=None, tier="quick"):
     pg = {"C09": 0.15, "C10": 0.4, "C11": 0.1}.get(focus, 0.25)
     k = rng.random()
-    if k > 0.997:
+    if k > {"C11": 0.993}.get(focus, 0.997):  # lifecycle races are what C11 is about: more of them there
         return gen_race(rng)
     if k < pg:
         return gen_growth(rng, tier)
@@ -516,6 +516,12 @@ def analyse(program, log, verdict, thread_errors=()):
         if fin is not None and t["accepted"]:
             state, done = fin
             ex = exempt(h, t)
+            if state == "never" and not ex and faulty and h.start_failures and t["enq_call"] < max(h.start_failures) and \
+                    not any(o["accepted"] and o["enq_call"] > max(h.start_failures) for o in h.tasks.values()):
+                # thread-start failures (outside the domain of C09): a task whose worker could not be started
+                # waits for the next enqueue; with no enqueue after the last failure it may wait for ever
+                ex = True
+                h.stranded = True
             if state == "never":
                 if not ex:
                     sig = "never-run" if not t["begins"] else "ran-but-future-not-done"
